@@ -16,6 +16,7 @@ import (
 	"sort"
 	"strings"
 	"sync"
+	"time"
 
 	"github.com/go-kit/log"
 	"github.com/oklog/ulid/v2"
@@ -96,6 +97,49 @@ func ScratchDir() string {
 		return s
 	}
 	return os.TempDir()
+}
+
+var (
+	fastOnce sync.Once
+	fastDir  string
+)
+
+// FastScratchDir returns a per-process directory for the many small, short-lived block directories
+// of the shipper / upload cases. The code under test fsyncs meta files (about 13 ms per file+directory
+// pair on the work disk, more than everything else a case does), so a RAM-backed directory
+// (/dev/shm/verif-bl-<pid>) is preferred when available; otherwise ScratchDir() is used. Call
+// CleanupFastScratch (deferred) from the test. Stale directories of killed runs (older than two
+// hours) are swept on first use.
+func FastScratchDir() string {
+	fastOnce.Do(func() {
+		fastDir = ScratchDir()
+		const base = "/dev/shm"
+		if fi, err := os.Stat(base); err != nil || !fi.IsDir() {
+			return
+		}
+		if des, err := os.ReadDir(base); err == nil {
+			for _, de := range des {
+				if !strings.HasPrefix(de.Name(), "verif-bl-") {
+					continue
+				}
+				if fi, err := de.Info(); err == nil && time.Since(fi.ModTime()) > 2*time.Hour {
+					os.RemoveAll(filepath.Join(base, de.Name()))
+				}
+			}
+		}
+		d := filepath.Join(base, fmt.Sprintf("verif-bl-%d", os.Getpid()))
+		if err := os.MkdirAll(d, 0o750); err == nil {
+			fastDir = d
+		}
+	})
+	return fastDir
+}
+
+// CleanupFastScratch removes the directory FastScratchDir created in /dev/shm (if any).
+func CleanupFastScratch() {
+	if strings.HasPrefix(fastDir, "/dev/shm/verif-bl-") {
+		os.RemoveAll(fastDir)
+	}
 }
 
 func copyFile(src, dst string) error {
